@@ -35,11 +35,13 @@ BOUNDED_PARTS = {
     'C07': ['c07_rejected_leaves_no_trace'],
     'C08': ['c08_accumulative'],
     'C16': ['c16_conversions'],
+    'C17': ['c17_statistics'],
+    'C19': ['c19_blocked_and_frozen'],
 }
 
 LEVELS = {
     'C01': 'other', 'C03': 'other', 'C04': 'other', 'C05': 'other', 'C07': 'other', 'C08': 'other',
-    'C02': 'exploration', 'C06': 'exploration', 'C16': 'exploration',
+    'C02': 'exploration', 'C06': 'exploration', 'C16': 'exploration', 'C17': 'exploration', 'C19': 'exploration',
 }
 
 EXPLANATIONS = {
